@@ -3,6 +3,7 @@
 mod gates;
 mod opseq;
 mod pauli;
+mod lattice;
 mod util;
 
 use serde_json::{json, Value};
@@ -16,6 +17,7 @@ fn dispatch(case: &Value) -> Value {
         "pauli" => pauli::run_pauli(case),
         "pauli_exp" => pauli::run_pauli_exp(case),
         "trotter" => pauli::run_trotter(case),
+        "lattice" => lattice::run_lattice(case),
         "sched" => sched(case),
         other => json!({"r": "harness_error", "e": format!("unknown op {}", other)}),
     }
